@@ -29,7 +29,8 @@ THEOREMS = ["C15_scalar_broadcasts", "C15_sequence_zips", "C15_wrong_length_rais
             "C15_add_keeps_order_and_parent", "C15_type_guard", "C15_index_lookup", "C15_slice_lookup_partial",
             "C15_unique_name_lookup", "C15_history_invariant",
             "C15_membership_changes_only_by_add_or_member_list", "C15_observe_once",
-            "C15_observe_each_member_exactly_once_in_histories"]
+            "C15_observe_each_member_exactly_once_in_histories", "C15_member_refusal_touches_nothing_else",
+            "C15_direct_member_change_is_read_back"]
 
 HEADER = ("Require Import Cherab.Common.Qx.\nFrom Coq Require Import String.\n"
           "Require Import Cherab.Model.C15_Groups Cherab.Model.C15_Table Cherab.Model.C15_Check.\n"
@@ -62,8 +63,46 @@ DOM = {
 }
 MEMBER_PROPS = {"observers", "sight_lines", "foil_detectors"}
 NO_SCALAR = {"names", "pipelines"}     # class docstring: "for any property except names and pipelines"
-NAMES = ["a", "b", "c", "d", "e", "f"]
-UNIQUE = ["u%d" % i for i in range(32)]          # unique member names used by the search
+NAMES = ["a", "b", "c", "d", "A", ""]              # few names (duplicates wanted), one differing by case only, the empty name
+
+INT_MAX = 2 ** 31 - 1
+# the member observers' own validation (raysect), used to PREDICT which member refuses a value:
+# attr -> (value, member) -> error kind or None.  RuntimeError / OverflowError map to EOther.
+RULES = {
+    "spectral_bins": lambda v, m: "EValue" if v <= 0 or v < m.spectral_rays else None,
+    "spectral_rays": lambda v, m: None if 0 < v <= m.spectral_bins else "EValue",
+    "min_wavelength": lambda v, m: "EValue" if v <= 0 or v >= m.max_wavelength else None,
+    "max_wavelength": lambda v, m: "EValue" if v <= 0 or v <= m.min_wavelength else None,
+    "ray_extinction_prob": lambda v, m: None if 0 <= v <= 1 else "EValue",
+    "ray_extinction_min_depth": lambda v, m: "EValue" if v < 0 else None,
+    "ray_max_depth": lambda v, m: "EValue" if v < 0 else None,
+    "ray_important_path_weight": lambda v, m: None if 0 <= v <= 1 else "EValue",
+    "pixel_samples": lambda v, m: "EValue" if v <= 0 else None,
+    "samples_per_task": lambda v, m: "EValue" if v <= 0 else None,
+    "sensitivity": lambda v, m: "EValue" if v <= 0 else None,
+    "acceptance_angle": lambda v, m: None if 0 < v <= 90 else "EOther",
+    "radius": lambda v, m: "EOther" if v <= 0 else None,
+    "x_width": lambda v, m: "EOther" if v <= 0 else None,
+    "y_width": lambda v, m: "EOther" if v <= 0 else None,
+    "targetted_path_prob": lambda v, m: "EValue" if v < 0 or v > 1 else None,
+}
+
+
+NO_EXTREME = {"x_width", "y_width", "radius", "acceptance_angle"}
+
+
+def fits32(x):
+    with np.errstate(over="ignore"):
+        return float(np.float32(x)) == float(x)
+
+
+class ListSub(list):
+    pass
+
+
+class TupleSub(tuple):
+    pass
+UNIQUE = ["u%d" % i for i in range(128)]          # unique member names used by the search
 
 TY = {"SightLine": 1, "FibreOptic": 2, "Pixel": 3, "TargettedPixel": 4, "SpectroscopicSightLine": 5,
       "SpectroscopicFibreOptic": 6, "BolometerFoil": 7, "NotObserver": 9}
@@ -218,14 +257,53 @@ class Impl:
         return self.norm_read(attr, getattr(m, attr, None))
 
     # -- random values -------------------------------------------------------------------------
-    def rand_value(self, rng, attr):
+    def rand_value(self, rng, attr, mode="plain"):
+        """mode 'plain': a value every member accepts, in its usual Python form.
+        mode 'any': additionally exact bounds of the member's guards, 0 / -0.0 / negative / huge /
+        subnormal values (some of which the member refuses) and numpy scalar / bool / int forms."""
         d = DOM[attr]
+        edge = mode == "any" and rng.random() < 0.3
         if d[0] == "int":
-            return rng.randint(d[1], d[2])
+            if edge:
+                v = rng.choice([0, -1, 1, 2, d[1], d[2], 9, 10, 11, 99, 100, 101, INT_MAX, INT_MAX + 1, -INT_MAX - 1])
+            else:
+                v = rng.randint(d[1], d[2])
+            if mode == "any":
+                f = rng.random()
+                if f < 0.2:
+                    v = np.int64(v)
+                elif f < 0.3 and -INT_MAX <= v <= INT_MAX:
+                    v = np.int32(v)
+                elif f < 0.4 and v in (0, 1):
+                    v = bool(v)
+            return v
         if d[0] == "float":
-            return dyadic(rng, d[1], d[2], 6)
+            if edge:
+                v = rng.choice([0.0, -0.0, 1.0, -1.0, float(d[1]), float(d[2]), 2.0 ** 900, 5e-324, 2.0 ** -1000, 90.0,
+                                float(np.nextafter(90.0, 100.0)), float(np.nextafter(1.0, 2.0)), float(np.nextafter(1.0, 0.0)),
+                                0.5, -2.0 ** 900])
+                if attr in NO_EXTREME and not (2.0 ** -60 <= abs(v) <= 2.0 ** 60 or v == 0):
+                    v = 1.0        # these setters also build samplers from the value; extremes fail inside raysect
+            else:
+                v = dyadic(rng, d[1], d[2], 6)
+            if mode == "any":
+                f = rng.random()
+                if f < 0.2:
+                    v = np.float64(v)
+                elif f < 0.3 and fits32(v):
+                    v = np.float32(v)
+                elif f < 0.4 and float(v).is_integer() and abs(v) < 2 ** 53:
+                    v = int(v)
+            return v
         if d[0] == "bool":
-            return rng.random() < 0.5
+            v = rng.random() < 0.5
+            if mode == "any":
+                f = rng.random()
+                if f < 0.2:
+                    v = np.bool_(v)
+                elif f < 0.35:
+                    v = int(v)
+            return v
         if d[0] == "engine":
             return self.SerialEngine()
         if d[0] == "name":
@@ -243,12 +321,73 @@ class Impl:
     def numeric(self, attr):
         return DOM[attr][0] in ("int", "float", "bool")
 
-    def to_kind(self, kind, vals, attr):
+    def coerce(self, attr, x):
+        """the conversion done by the member's C-typed attribute (int / double / bint)"""
+        k = DOM[attr][0]
+        if k == "int":
+            return int(x)
+        if k == "float":
+            return float(x)
+        if k == "bool":
+            return bool(x)
+        return x
+
+    def rejects(self, attr, v, m):
+        """error kind with which member m refuses value v for attr (raysect's rules), or None"""
+        k = DOM[attr][0]
+        if k == "bool":
+            return None
+        v = int(v) if k == "int" else float(v)
+        rule = RULES.get(attr)
+        e = rule(v, m) if rule else None           # the Python-level comparisons of the setter come first ...
+        if e is None and k == "int" and not -INT_MAX - 1 <= v <= INT_MAX:
+            return "EOther"                          # ... then the store into a C int (OverflowError)
+        return e
+
+    def first_refusal(self, attr, v, ms):
+        """(index, error) of the first member that refuses, for a value the group takes as scalar or
+        as a sequence of group length; None when every member accepts"""
+        seq = isinstance(v, (list, tuple, np.ndarray))
+        for i, m in enumerate(ms):
+            e = self.rejects(attr, v[i] if seq else v, m)
+            if e:
+                return i, e
+        return None
+
+    def enc_assigned(self, attr, v):
+        """encoding of an assigned value: numeric elements as the member will store them"""
+        if not self.numeric(attr):
+            return self.enc(v)
+        if isinstance(v, (list, tuple, np.ndarray)):
+            kind = "KList" if isinstance(v, list) else "KTuple" if isinstance(v, tuple) else "KArr"
+            return "(VSeq %s [%s])" % (kind, "; ".join(self.enc(self.coerce(attr, x)) for x in v))
+        return self.enc(self.coerce(attr, v))
+
+    def to_kind(self, kind, vals, attr, rng=None):
+        """rng given: also list / tuple subclasses, narrower dtypes, non-contiguous and read-only arrays"""
         if kind == "list":
-            return list(vals)
+            return ListSub(vals) if rng and rng.random() < 0.1 else list(vals)
         if kind == "tuple":
-            return tuple(vals)
-        return np.array(vals, dtype={"int": np.int64, "float": np.float64, "bool": np.bool_}[DOM[attr][0]])
+            return TupleSub(vals) if rng and rng.random() < 0.1 else tuple(vals)
+        k = DOM[attr][0]
+        dtype = {"int": np.int64, "float": np.float64, "bool": np.bool_}[k]
+        if rng and rng.random() < 0.35:
+            if k == "int" and all(-INT_MAX <= int(x) <= INT_MAX for x in vals):
+                dtype = np.int32
+            elif k == "float" and all(fits32(x) for x in vals):
+                dtype = np.float32
+            elif k == "float" and all(float(x).is_integer() and abs(float(x)) < 2 ** 53 for x in vals):
+                dtype = np.int64
+            elif k == "bool":
+                dtype = np.int8
+        if k == "int" and any(not -2 ** 63 <= int(x) < 2 ** 63 for x in vals):
+            vals = [min(max(int(x), -2 ** 63), 2 ** 63 - 1) for x in vals]
+        arr = np.array([self.coerce(attr, x) if k != "bool" else bool(x) for x in vals], dtype=dtype)
+        if rng and rng.random() < 0.2 and len(vals):
+            arr = np.repeat(arr, 2)[::2]                 # non-contiguous view
+        if rng and rng.random() < 0.2:
+            arr.flags.writeable = False
+        return arr
 
 
 # ---------------------------------------------------------------------------------------------
@@ -485,6 +624,8 @@ def search(impl, rng, sizes, only=None):
                     ms = now
                 except Exception as ex:
                     fail(cname, adder, "add: adding an observer of the group's type raised", n=n, error=repr(ex))
+    from c15_live import search_live
+    checks += search_live(impl, rng, sizes, fail)
     return fails, checks
 
 
@@ -621,14 +762,14 @@ class Case:
         if mode is not None:
             r = {"scalar": 0.0, "seq": 0.5, "list": 0.5, "tuple": 0.5, "array": 0.5, "wrong-length": 0.8, "type-error": 0.95}[mode]
         if r < 0.30 and a not in NO_SCALAR:
-            mode, v = "scalar", impl.rand_value(rng, a)
+            mode, v = "scalar", impl.rand_value(rng, a, "any")
         elif r < 0.65:
             mode = forced_kind or rng.choice(kinds)
-            v = impl.to_kind(mode, [impl.rand_value(rng, a) for _ in range(n)], a)
+            v = impl.to_kind(mode, [impl.rand_value(rng, a, "any") for _ in range(n)], a, rng)
         elif r < 0.90:
             mode = "wrong-length"
             wl = rng.choice([x for x in (n - 1, n + 1, 0, n + 2, 2 * n) if x >= 0 and x != n])
-            v = impl.to_kind(rng.choice(kinds), [impl.rand_value(rng, a) for _ in range(wl)], a)
+            v = impl.to_kind(rng.choice(kinds), [impl.rand_value(rng, a, "any") for _ in range(wl)], a, rng)
         else:
             mode = "type-error"
             if a == "render_engine":
@@ -640,15 +781,63 @@ class Case:
                     v = 3
             elif a in NO_SCALAR or a == "targets":
                 v = rng.choice([7, self.impl.sphere0]) if a != "names" else rng.choice([7, None])
+            elif a == "names":
+                v = rng.choice([7, None, "ab"[:n] or "x"])
             else:
-                mode, v = "scalar", impl.rand_value(rng, a)
-        self.stat("assign:" + mode)
+                mode, v = "scalar", impl.rand_value(rng, a, "any")
+        # which member (if any) refuses its value: predicted from raysect's rules, not from the outcome
+        if attr is None and forced_kind is None and getattr(self, "last", None) and rng.random() < 0.12:
+            a, v, mode = self.last[0], self.last[1], "same-value-again:" + self.last[2]     # the very same object once more
+        elif mode != "type-error":
+            self.last = (a, v, mode)
+        refusal = None
+        is_seq = isinstance(v, (list, tuple, np.ndarray))
+        if impl.numeric(a) and not mode.endswith("type-error") and not (is_seq and len(v) != n):
+            refusal = impl.first_refusal(a, v, self.members())
+        self.stat("assign:" + mode.split(":")[0])
         self.stat("assign@" + a)
 
         def fn():
             setattr(self.g, a, v)
             return "ROk"
-        self.do("OAssign %s %s" % (coq_string(a), impl.enc(v)), "%s = <%s>" % (a, mode), fn)
+        if refusal is not None:
+            self.stat("assign:member-refuses")
+            self.do("OAssignRej %s %s %d %s" % (coq_string(a), impl.enc_assigned(a, v), refusal[0], refusal[1]),
+                    "%s = <%s, member %d refuses: %s>" % (a, mode, refusal[0], refusal[1]), fn)
+        else:
+            self.do("OAssign %s %s" % (coq_string(a), impl.enc_assigned(a, v)), "%s = <%s>" % (a, mode), fn)
+
+    def op_direct(self):
+        """change a member directly (not through the group): the group must read the new value"""
+        impl, rng = self.impl, self.rng
+        ms = self.members()
+        cands = [a for a in self.rows if impl.numeric(a)] + (["names"] if "names" in self.rows else [])
+        if not ms or not cands:
+            return self.op_len()
+        m = rng.choice(ms)
+        a = rng.choice(sorted(cands))
+        ma = tr_member_attr(a)
+        v = impl.rand_value(rng, a, "any")
+        if impl.numeric(a) and impl.rejects(a, v, m):
+            v = impl.rand_value(rng, a)
+            if impl.rejects(a, v, m):
+                return self.op_len()
+        self.stat("direct_member_change")
+        self.do("ODirect %d %s %s" % (self.ids[id(m)], coq_string(ma), impl.enc_assigned(a, v)),
+                "member #%d .%s = value" % (self.ids[id(m)], ma), lambda: (setattr(m, ma, v), "ROk")[1])
+
+    def op_members(self):
+        """read the member list through every public route"""
+        rng = self.rng
+        routes = ["foil_detectors", "iter"] if self.bolo else \
+            ["observers", "getitem-iteration"] + (["sight_lines"] if self.cname.startswith("Spectroscopic") else [])
+        route = rng.choice(routes)
+        self.stat("members:" + route)
+
+        def fn():
+            xs = list(self.g) if route in ("iter", "getitem-iteration") else list(getattr(self.g, route))
+            return "RMems [%s]" % "; ".join(str(self.ids[id(o)]) for o in xs)
+        self.do("OMembers", "member list via %s" % route, fn)
 
     def op_get(self, attr=None):
         rng = self.rng
@@ -670,9 +859,17 @@ class Case:
         elif forced is not None and forced[0] == "name":
             k, key = "KStr %s" % coq_string(forced[1]), forced[1]
         elif r < 0.35:
-            i = rng.randint(-n - 2, n + 1)
-            k, key = "KInt %s" % zlit(i), i
-            self.stat("key:int")
+            i = rng.choice([rng.randint(-n - 2, n + 1), n, n - 1, -n, -n - 1, 0, -1])
+            f = rng.random()
+            if f < 0.2:
+                k, key = "KIdx %s" % zlit(i), np.int64(i)          # a numpy integer is not an int
+                self.stat("key:numpy-int")
+            elif f < 0.3 and i in (0, 1):
+                k, key = "KInt %s" % zlit(i), bool(i)               # a bool is an int
+                self.stat("key:bool")
+            else:
+                k, key = "KInt %s" % zlit(i), i
+                self.stat("key:int")
         elif r < 0.6:
             lo = rng.choice([None] + list(range(-n - 2, n + 3)))
             hi = rng.choice([None] + list(range(-n - 2, n + 3)))
@@ -708,27 +905,45 @@ class Case:
 
     def run(self, max_ops):
         rng = self.rng
-        for _ in range(rng.choice([0, 1, 2, 2, 3, 3, 4, 5])):
-            self.op_add()
+        big = [10, 11, 33] if max_ops <= 9 else [10, 11, 33, 99, 100, 101]
+        n0 = rng.choice(big) if rng.random() < 0.04 else rng.choice([0, 1, 2, 2, 3, 3, 4, 5])
+        if not self.bolo and rng.random() < 0.5:
+            # members given to the constructor (observers=list or tuple) instead of add_observer
+            objs = [self.new_obj(rng.choice(usable_types(self.impl, self.cname))) for _ in range(n0)]
+            seq = rng.choice([list, tuple])(o for _, o in objs)
+            self.g = self.impl.cls[self.cname](name="group", observers=seq)
+            self.stat("constructed_with_observers")
+            for oid, _ in objs:
+                self.ops.append("OAdd %d" % oid)
+                self.res.append("ROk")
+                self.desc.append("constructor observers= #%d" % oid)
+        else:
+            for _ in range(n0):
+                self.op_add()
         self.n_init = len(self.members())
         for _ in range(rng.randint(3, max_ops)):
             r = rng.random()
             if self.bolo:
                 r = 0.5 + r / 2
-            if r < 0.5 and self.rows:
+            if r < 0.45 and self.rows:
                 self.op_assign()
-            elif r < 0.62 and self.rows:
+            elif r < 0.52 and self.rows:
+                self.op_direct()
+            elif r < 0.63 and self.rows:
                 self.op_get()
-            elif r < 0.78:
+            elif r < 0.77:
                 self.op_key()
-            elif r < 0.84:
+            elif r < 0.83:
                 self.op_observe()
-            elif r < 0.87:
+            elif r < 0.85:
                 self.op_len()
+            elif r < 0.89:
+                self.op_members()
             elif r < 0.95:
                 self.op_add(wrong=rng.random() < 0.3)
             else:
                 self.op_setmembers()
+
     def run_script(self, script):
         """a corpus history: [["add", type], ["assign", attr, mode], ["get", attr], ["key", "int"|"slice"|"name", ...],
         ["observe"], ["len"], ["setmembers"]]; values are drawn from the case's own generator"""
@@ -795,8 +1010,12 @@ def run(ctx):
         "ranges they accept); Node.parent; CPython property binding (inspected on the running classes)",
     ]
     ctx.assumptions += [
-        "objects added to a group are distinct objects and an object removed by a member-list assignment is not added again "
-        "(the same observer added twice would be two members sharing one state)",
+        "in the modelled histories objects added to a group are distinct and an object removed by a member-list assignment is "
+        "not added again (the same observer added twice is two member slots sharing one state; the search checks order, "
+        "parent, index lookup and reading for such a list on the implementation, not 'observed once')",
+        "which member refuses which value is raysect's business: the harness predicts it from raysect's rules (RULES in "
+        "harness/c15.py) and the model is told the index and error kind (OAssignRej); values that make raysect fail after "
+        "storing (extreme widths / radii building samplers) are not generated",
         "'a single value' excludes names and pipelines (class docstring: 'for any property except names and pipelines'); "
         "for targets a single value is a flat list of primitives, a sequence is a list of lists",
         "the values assigned are ones the member observers accept; ndarray only for numeric attributes whose setters name it",
@@ -848,7 +1067,7 @@ def run(ctx):
         return
 
     # ---- failing-input search: the property on the real classes (always run) ------------------------
-    sizes = list(range(0, 5)) if quick else list(range(0, 8))
+    sizes = [0, 1, 2, 3, 4, 10] if quick else [0, 1, 2, 3, 4, 5, 6, 7, 9, 10, 11, 33]
     fails, n_checks = search(impl, rng, sizes)
     ctx.obligation("executable property on the implementation (%d checks, %d classes, sizes %s)" % (n_checks, len(impl.classes), sizes),
                    "search", not [f for f in fails if f["key"] not in ctx.known], str(fails[:3]))
@@ -955,6 +1174,15 @@ def run(ctx):
                          "extracted_table_entries": n_entries, "search_checks": n_checks, "search_group_sizes": sizes,
                          "disagreeing_histories": len(diff_cases)},
         "tolerance": "none: numbers are dyadic and compared as exact rationals, objects by identity, error kinds exactly",
+        "input_classes": ["histories on one live group incl. constructor observers= vs add_observer, direct member changes, the same "
+                          "value object assigned again, member list re-assigned, observe repeated",
+                          "values crossing a member's guard between steps (valid -> 0 / -0.0 / negative / above bound -> valid), "
+                          "also in the middle of a sequence", "exact bounds of raysect's guards, nextafter, 2^900, subnormals, "
+                          "C-int overflow, group sizes 0,1,2 .. and 10/11/33 (thorough 99/100/101), indices n, -n-1, -n, n-1",
+                          "numpy scalars / bool / int forms, int32 / float32 / int8 arrays, non-contiguous and read-only arrays, "
+                          "list and tuple subclasses, numpy-integer and bool keys, names differing by case, empty name",
+                          "second-order routes: constructor, add_sight_line, sight_lines, iteration, member-list getters, "
+                          "connect_pipelines"],
         "partial": ["slices are modelled and compared for step 1 only (the search also tries steps 2 and -1 on the implementation)",
                     "pipelines assignment on the deprecated spectroscopic groups is exercised by the search only (their "
                     "display_progress/accumulate live inside the pipeline objects, the member store model does not couple them)",
